@@ -238,6 +238,10 @@ pub fn run_c14(tier: Tier) -> i32 {
         alpha.push(Act::AddVamm { by: "owner".into(), v });
     }
     alpha.push(Act::Shutdown { by: "owner".into() });
+    // funding settlements as transitions: the engine then holds funding history for the vAMM
+    for v in 0..3 {
+        alpha.push(Act::Fund { by: "stranger".into(), v });
+    }
     let seed = vec![
         Act::Open { t: "alice".into(), v: 0, buy: true, margin: SIZE_M.0, lev: SIZE_M.1, limit: 0 },
         Act::Open { t: "bob".into(), v: 1, buy: false, margin: SIZE_M.0, lev: SIZE_M.1, limit: 0 },
